@@ -240,3 +240,136 @@ Definition from_proto (ar : api_route) : result route :=
   bind (mapM path_from_proto (ar_paths ar)) (fun ps => Ok (mkR (Some pf) ps))).
 
 Definition roundtrip (r : route) : result route := bind (to_proto r) from_proto.
+
+(* ================================================================== histories of conversions
+   RouteFromProtoRoute(ar, dedup) is not a function of ar alone: with dedup = true every attribute
+   block goes through the process-wide cache of route/bgp_path_cache.go,
+
+       cache map[BGPPathA]*BGPPathA        get(p): if x, ok := cache[*p]; ok { return x }
+                                                    cache[*p] = p; return p
+
+   The key is the struct VALUE of the block, and BGPPathA holds its addresses as pointers
+   (NextHop, Source *bnet.IP; Aggregator): two keys are equal only if these pointers are equal.
+   BGPPathFromProtoBGPPath builds both addresses with IPFromProtoIP(..).Ptr(), i.e. freshly
+   allocated.  The model makes this explicit: a heap hands out addresses, a cache key is
+   (address of NextHop, address of Source, the remaining fields), the cache is an association list
+   from keys to the stored blocks.  Whether a lookup can ever hit is then a theorem
+   (Proofs: from_proto_h_stateless), not an assumption. *)
+Definition addr := N.
+
+Record ckey := mkCK {
+  ck_nh : addr; ck_src : addr;
+  ck_localpref : N; ck_med : N; ck_bgpid : N; ck_origid : N;
+  ck_agg : option addr;
+  ck_ebgp : bool; ck_atomic : bool; ck_origin : N; ck_otc : N }.
+
+Definition opt_addr_eqb (a b : option addr) : bool :=
+  match a, b with
+  | None, None => true
+  | Some x, Some y => x =? y
+  | _, _ => false
+  end.
+
+(* Go's == on the struct *)
+Definition ckey_eqb (a b : ckey) : bool :=
+  (ck_nh a =? ck_nh b) && (ck_src a =? ck_src b) &&
+  (ck_localpref a =? ck_localpref b) && (ck_med a =? ck_med b) &&
+  (ck_bgpid a =? ck_bgpid b) && (ck_origid a =? ck_origid b) &&
+  opt_addr_eqb (ck_agg a) (ck_agg b) &&
+  Bool.eqb (ck_ebgp a) (ck_ebgp b) && Bool.eqb (ck_atomic a) (ck_atomic b) &&
+  (ck_origin a =? ck_origin b) && (ck_otc a =? ck_otc b).
+
+Record heap := mkH {
+  h_cache : list (ckey * bgp_path_a);    (* bgpC.cache: key -> the block stored under it *)
+  h_next : addr }.                       (* every address >= h_next is unallocated *)
+
+Definition empty_heap : heap := mkH [] 0.
+
+Fixpoint cache_find (k : ckey) (c : list (ckey * bgp_path_a)) : option bgp_path_a :=
+  match c with
+  | [] => None
+  | (k', v) :: r => if ckey_eqb k' k then Some v else cache_find k r
+  end.
+
+(* bgpPathACache.get *)
+Definition cache_get (k : ckey) (blk : bgp_path_a) (h : heap) : bgp_path_a * heap :=
+  match cache_find k (h_cache h) with
+  | Some x => (x, h)
+  | None => (blk, mkH ((k, blk) :: h_cache h) (h_next h))
+  end.
+
+(* computations that allocate / use the cache; a panic keeps the heap reached so far *)
+Definition hres (A : Type) : Type := (result A * heap)%type.
+Definition hbind {A B} (m : heap -> hres A) (f : A -> heap -> hres B) : heap -> hres B :=
+  fun h => match m h with
+           | (Ok a, h') => f a h'
+           | (Panic, h') => (Panic, h')
+           end.
+Definition hret {A} (a : A) : heap -> hres A := fun h => (Ok a, h).
+
+Fixpoint mapM_h {A B} (f : A -> heap -> hres B) (l : list A) : heap -> hres (list B) :=
+  match l with
+  | [] => hret []
+  | x :: r => hbind (f x) (fun y => hbind (mapM_h f r) (fun ys => hret (y :: ys)))
+  end.
+
+(* bnet.IPFromProtoIP(a).Ptr(): the value and the address of the fresh copy *)
+Definition ip_ptr_from_proto (a : option api_ip) : heap -> hres (ip * addr) :=
+  fun h => match ip_from_proto a with
+           | Ok i => (Ok (i, h_next h), mkH (h_cache h) (h_next h + 1))
+           | Panic => (Panic, h)
+           end.
+
+(* BGPPathFromProtoBGPPath(pb, dedup) *)
+Definition bgp_from_proto_h (dedup : bool) (pb : option api_bgp) : heap -> hres bgp_path :=
+  match pb with
+  | None => fun h => (Panic, h)
+  | Some x =>
+    let asp := map seg_from_proto (ab_aspath x) in
+    hbind (ip_ptr_from_proto (ab_nexthop x)) (fun nh =>
+    hbind (ip_ptr_from_proto (ab_source x)) (fun src => fun h =>
+      let blk := mkA (Some (fst nh)) (Some (fst src)) (ab_localpref x) (ab_med x) (ab_bgpid x)
+                     (ab_origid x) None (ab_ebgp x) false (ab_origin x mod 256) (ab_otc x) in
+      let key := mkCK (snd nh) (snd src) (ab_localpref x) (ab_med x) (ab_bgpid x) (ab_origid x)
+                      None (ab_ebgp x) false (ab_origin x mod 256) (ab_otc x) in
+      let '(blk', h') := if dedup then cache_get key blk h else (blk, h) in
+      (Ok (mkB (Some blk')
+               (Some asp)
+               (nonempty (ab_cluster x))
+               (nonempty (ab_comms x))
+               (nonempty (map lcomm_from_proto (ab_lcomms x)))
+               (map unknown_from_proto (ab_unknown x))
+               (ab_pathid x)
+               (aspath_length asp)
+               (ab_postpolicy x)), h')))
+  end.
+
+Definition path_from_proto_h (dedup : bool) (ap : api_path) : heap -> hres path :=
+  let hd := hidden_from_proto (ap_hidden ap) in
+  if ap_type ap =? Path_BGP then
+    hbind (bgp_from_proto_h dedup (ap_bgp ap)) (fun b => hret (mkPath BGPPathType 0 hd 0 None (Some b)))
+  else if ap_type ap =? Path_Static then
+    fun h => (bind (static_from_proto (ap_static ap)) (fun s => Ok (mkPath StaticPathType 0 hd 0 (Some s) None)), h)
+  else hret (mkPath 0 0 hd 0 None None).
+
+(* RouteFromProtoRoute(ar, dedup) in a given state of the process *)
+Definition from_proto_h (dedup : bool) (ar : api_route) : heap -> hres route :=
+  fun h => match prefix_from_proto (ar_pfx ar) with
+           | Panic => (Panic, h)
+           | Ok pf => hbind (mapM_h (path_from_proto_h dedup) (ar_paths ar))
+                            (fun ps => hret (mkR (Some pf) ps)) h
+           end.
+
+(* one step of a history: r.ToProto() and RouteFromProtoRoute(.., dedup) *)
+Definition roundtrip_h (dedup : bool) (r : route) : heap -> hres route :=
+  fun h => match to_proto r with
+           | Panic => (Panic, h)
+           | Ok ar => from_proto_h dedup ar h
+           end.
+
+(* a history of conversions in one process: the results, in order *)
+Fixpoint run_history (h : heap) (l : list (route * bool)) : list (result route) :=
+  match l with
+  | [] => []
+  | (r, dd) :: rest => let '(res, h') := roundtrip_h dd r h in res :: run_history h' rest
+  end.
